@@ -71,6 +71,7 @@ def consume(path):
     with open(path, "rb") as f:
         data = pickle.load(f)
     res = {"pickled": {}, "before": tables(encoding)}
+    held = []
     for n, (dec, fresh) in data.items():
         r = {}
         for name, lst in (("decoded", dec), ("rebuilt", fresh)):
@@ -81,12 +82,24 @@ def consume(path):
                 except Exception as e:
                     ids.append("crash " + type(e).__name__)
             try:
-                b = [int(v) for v in encoding.encode_moves_batch(n, lst).tolist()]
+                # a permuted order, so that two sizes do not ask for identical id prefixes
+                perm = list(range(len(lst)))
+                random.Random(n).shuffle(perm)
+                t = encoding.encode_moves_batch(n, [lst[i] for i in perm])
+                inv = [0] * len(perm)
+                got = [int(v) for v in t.tolist()]
+                for pos_, i in enumerate(perm):
+                    inv[i] = got[pos_]
+                b = inv
+                held.append((n, name, t, got))
             except Exception as e:
                 b = "crash " + type(e).__name__
             eq = [bool(m == encoding.decode_move(n, i)) for i, m in enumerate(lst)]
             r[name] = {"encode_move": ids, "encode_moves_batch": b, "equal_to_local": all(eq)}
         res["pickled"][str(n)] = r
+    # every batch tensor handed out above is still what it was (a result is a value, not a view of
+    # a buffer the next call reuses)
+    res["held_changed"] = [[n, name] for n, name, t, got in held if [int(v) for v in t.tolist()] != got]
     # the caller does what it likes with lists it was handed
     rng = random.Random(7)
     for n in sizes(encoding):
@@ -104,6 +117,28 @@ def consume(path):
     print("C07X " + json.dumps(res))
 
 
+def lateimport(path):
+    """the generator is used for every size BEFORE tak.model.encoding is imported for the first time
+    (a script that plays first and encodes later): the id tables are the same tables"""
+    import tak
+
+    rng = random.Random(3)
+    for n in range(3, 9):
+        p = tak.Position.from_config(tak.Config(size=n))
+        for _ in range(6):
+            ms = p.all_moves()
+            rng.shuffle(ms)
+            for m in ms:
+                try:
+                    p = p.move(m)
+                    break
+                except tak.IllegalMove:
+                    continue
+    from tak.model import encoding
+
+    print("C07X " + json.dumps({"tables": tables(encoding)}))
+
+
 if __name__ == "__main__":
     env.setup_impl_path(None)
-    {"produce": produce, "consume": consume}[sys.argv[1]](sys.argv[2])
+    {"produce": produce, "consume": consume, "lateimport": lateimport}[sys.argv[1]](sys.argv[2])
